@@ -30,7 +30,7 @@ for _g in ALL:
                bounds="fault flags for up to 4 callables of the graph; raised type one of ValueError / KeyError / RuntimeError / custom / "
                       "EvaluationError / KeyNotFoundError (cubes)")
 
-_HIST = [g for g in ALL if g.gid in ("g06", "g11", "g12", "g13", "g14", "g16", "g17", "g62", "g64", "g65")]
+_HIST = [g for g in ALL if g.gid in ("g06", "g11", "g12", "g13", "g14", "g16", "g17", "g19", "g62", "g64", "g65")]
 for _g in _HIST:
     _fp = _fault_params(_g)
     _ex = {k: (i == 0) for i, (k, _) in enumerate(_fp)}
